@@ -756,8 +756,10 @@ impl Sink<Bytes> for Substream {
             match poll_write!(&mut self.substream, cx, &pending_frame) {
                 Poll::Ready(Err(error)) => return Poll::Ready(Err(error.into())),
                 Poll::Pending => {
+                    // Frames remain unsent: the flush is not complete. (The inner `poll_write`
+                    // registered the waker.)
                     self.pending_out_frame = Some(pending_frame);
-                    break;
+                    return Poll::Pending;
                 }
                 Poll::Ready(Ok(nwritten)) => {
                     pending_frame.advance(nwritten);
